@@ -765,6 +765,8 @@ mutual
         simp only [fragS, Bool.and_eq_true] at hf
         simp only [supportedS, Bool.and_eq_true] at hs
         simp only [rwStmt] at h
+        have hny : ¬ (optIsYield init = true) := by simpa using hf.1.1
+        rw [if_neg hny] at h
         obtain ⟨body, hbody, h⟩ := bind_ok h
         obtain ⟨e, he, h⟩ := bind_ok h
         obtain ⟨cur', hcur', h⟩ := bind_ok h
@@ -852,6 +854,8 @@ mutual
         simp only [fragS, Bool.and_eq_true] at hf
         simp only [supportedS, Bool.and_eq_true] at hs
         simp only [rwIfS] at h
+        have hny : ¬ (optIsYield init = true) := by simpa using hf.1.1
+        rw [if_neg hny] at h
         obtain ⟨body, hbody, h⟩ := bind_ok h
         obtain ⟨e, he, h⟩ := bind_ok h
         obtain ⟨hb1, hb2, hb3⟩ := rwStmts_ok ρ N q thn (Blk.mk0 .ifk) body cb bb hf.1.2 hs.1 (open_mk0 ρ N .ifk) hbody
